@@ -12,10 +12,10 @@ import (
 	"fmt"
 	"strings"
 
+	logger "github.com/ElrondNetwork/elrond-go-logger"
 	"github.com/ElrondNetwork/elrond-go/core/partitioning"
 	"github.com/ElrondNetwork/elrond-go/data/batch"
 	"github.com/ElrondNetwork/elrond-go/marshal"
-	logger "github.com/ElrondNetwork/elrond-go-logger"
 	"verif/internal/vk"
 )
 
